@@ -116,6 +116,10 @@ func DecodeAction(data []byte) (Action, error) {
 	if err != nil {
 		return a, err
 	}
+	if a.Len() == 0 {
+		// list decoders advance by the size an action reports for itself
+		return a, errors.New("the action reports a zero length")
+	}
 	return a, nil
 }
 
